@@ -231,4 +231,7 @@ class HeteroscedasticProblem:
         f = self.dataset.out_data[idx]
         if not noisy:
             return f
-        return f + self.rs.normal(size=f.shape) * self.sds[idx][:, None]
+        sd = self.sds[idx]
+        if sd.ndim == 1:
+            sd = sd[:, None]  # one level per design
+        return f + self.rs.normal(size=f.shape) * sd  # (design, objective) levels
